@@ -1,8 +1,15 @@
-//! compiles only if the cfg(hickory_dns_verif) hooks in /repo are present
+//! compiles only if the cfg(hickory_dns_verif) hooks in /repo are present; also prints the constants and
+//! default values the driver's `probe` anchors compare with the models' constants (read from the
+//! compiled crates, so a rewrite of how the source spells them does not matter)
 #[allow(unused_imports)]
 use hickory_net::dnssec::verif_hooks::{verify_nsec, verify_nsec3};
 #[allow(unused_imports)]
 use hickory_server::server::VerifContext;
 fn main() {
     println!("hooks present");
+    println!(
+        "PROBE dns_request_options.default.max_request_depth = {}",
+        hickory_proto::op::DnsRequestOptions::default().max_request_depth
+    );
+    println!("PROBE name.MAX_LENGTH = {}", hickory_proto::rr::Name::MAX_LENGTH);
 }
